@@ -354,6 +354,7 @@ func raceChildMain(args []string) int {
 		s.Steps = kept
 		s.Config.Replicas = s.Config.Replicas[:1]
 		s.Config.TZ = "" // time.Local is process-wide and other goroutines are running
+		s.Config.EnvPerNode = false
 		// IAVL's fast-node index is switched off for this replica: iavl v0.20.1 decides "this tree is the latest version,
 		// iterate over the fast index" and creates the index iterator in two steps, and a Commit that completes in between
 		// makes a query at the fixed height h iterate over entries of h+1 (no version filter in the fast iterator) - a race
